@@ -16,20 +16,27 @@ def insertByHi (g : Graph) (x : Nat) : List Nat → List Nat
   | y :: ys => if leEE (g.hi y) (g.hi x) then y :: insertByHi g x ys else x :: y :: ys
 def sortByHi (g : Graph) (l : List Nat) : List Nat := l.foldl (fun acc x => insertByHi g x acc) []
 
-/-- `_ensure_exit_arc`: add a zero-cost, zero-time arc back to the depot if none exists (the strict `add_arc`
-    may refuse it; the code ignores the return value) -/
-def ensureExit (fl : Flavor) (g : Graph) (cur : Nat) : Graph :=
-  if g.hasArc cur 0 then g else (gstep fl g (.addArc (nameOf g cur) (nameOf g 0) 0 0)).1
+/-- `add_arc` whose refusal makes the (repaired) heuristic raise `ValueError` -/
+def addArcOrFail (fl : Flavor) (g : Graph) (o d : Nat) (t c : Rat) : Option Graph :=
+  match gstep fl g (.addArc (nameOf g o) (nameOf g d) t c) with
+  | (g', .ok (some true)) => some g'
+  | _ => none
+
+/-- `_ensure_exit_arc`: add a zero-cost, zero-time arc back to the depot if none exists; `none` when the
+    (strict) `add_arc` refuses it (repaired code: raises; the pinned code ignored the refusal and went on to
+    store a vector that uses the missing arc) -/
+def ensureExit (fl : Flavor) (g : Graph) (cur : Nat) : Option Graph :=
+  if g.hasArc cur 0 then some g else addArcOrFail fl g cur 0 0 0
 
 /-- greedy fill of vehicle `v` from position `p` (positions `p .. L-2` remain, `k` of them):
     returns the graph (an exit arc may have been added), the still unvisited nodes, the used tuples -/
-def seqFill (fl : Flavor) (L v : Nat) : Nat → Nat → Nat → Graph → List Nat → List STup → Graph × List Nat × List STup
-  | 0, _, cur, g, unv, used => (ensureExit fl g cur, unv, used)
+def seqFill (fl : Flavor) (L v : Nat) : Nat → Nat → Nat → Graph → List Nat → List STup → Option (Graph × List Nat × List STup)
+  | 0, _, cur, g, unv, used => (ensureExit fl g cur).map fun g' => (g', unv, used)
   | k + 1, p, cur, g, unv, used =>
     match unv.find? (fun n => g.hasArc cur n) with
     | some n => seqFill fl L v k (p + 1) n g (unv.erase n) (used ++ [(v, p, n)])
     | none =>
-      (ensureExit fl g cur, unv, used ++ (List.range (k + 1)).map fun q => (v, p + q, 0))
+      (ensureExit fl g cur).map fun g' => (g', unv, used ++ (List.range (k + 1)).map fun q => (v, p + q, 0))
 
 /-- `SequenceBasedRoutingProblem.make_feasible(high_cost)` -/
 def SeqInst.makeFeasible (I : SeqInst) (high : Rat) : Except Err (SeqInst × List Rat) :=
@@ -37,17 +44,22 @@ def SeqInst.makeFeasible (I : SeqInst) (high : Rat) : Except Err (SeqInst × Lis
   let N := I.g.nodes.length
   let unv0 := sortByHi I.g ((List.range (N - 1)).map (· + 1))
   -- regular vehicles
-  let st := (List.range I.V).foldl (fun (st : Graph × List Nat × List STup) v =>
-      seqFill fl I.L v (I.L - 2) 1 0 st.1 st.2.1 st.2.2) (I.g, unv0, [])
+  match (List.range I.V).foldl (fun (st : Option (Graph × List Nat × List STup)) v =>
+      st.bind fun st => seqFill fl I.L v (I.L - 2) 1 0 st.1 st.2.1 st.2.2) (some (I.g, unv0, [])) with
+  | none => .error .value
+  | some st =>
   -- one dummy vehicle per node still unvisited
-  let st2 := st.2.1.foldl (fun (s : SeqInst × List STup) ni =>
+  match st.2.1.foldl (fun (s : Option (SeqInst × List STup)) ni =>
+      s.bind fun s =>
       let J := s.1
       let v := J.V
-      let g1 := if J.g.hasArc 0 ni then J.g else (gstep fl J.g (.addArc (nameOf J.g 0) (nameOf J.g ni) 0 high)).1
-      let g2 := if g1.hasArc ni 0 then g1 else (gstep fl g1 (.addArc (nameOf g1 ni) (nameOf g1 0) 0 high)).1
+      (if J.g.hasArc 0 ni then some J.g else addArcOrFail fl J.g 0 ni 0 high).bind fun g1 =>
+      (if g1.hasArc ni 0 then some g1 else addArcOrFail fl g1 ni 0 0 high).map fun g2 =>
       ({ J with g := g2, V := v + 1, vcost := J.vcost ++ [high] },
        s.2 ++ [(v, 1, ni)] ++ (List.range (J.L - 3)).map fun q => (v, q + 2, 0)))
-    ({ I with g := st.1 }, st.2.2)
+    (some ({ I with g := st.1 }, st.2.2)) with
+  | none => .error .value
+  | some st2 =>
   let J := st2.1
   let n := J.vars.length
   -- write the solution; a used tuple that is not a variable makes the (repaired) code raise
